@@ -320,10 +320,9 @@ func (n *CatchNode) String() string {
 		buff.WriteString(n.StackTraceVar.String())
 	}
 
-	buff.WriteRune('\n')
 	for _, stmt := range n.Body {
-		indent.IndentString(&buff, stmt.String(), 1)
 		buff.WriteRune('\n')
+		indent.IndentString(&buff, stmt.String(), 1)
 	}
 
 	return buff.String()
